@@ -95,13 +95,9 @@ HashAcc(d, i) == IF i > Len(d) THEN 0
 Sampled(d) == IF OptSample >= NOpts THEN 0..(NOpts - 1) ELSE {(HashAcc(d, 1) + 7 * k) % NOpts : k \in 0..(OptSample - 1)}
 
 (* ---- T1: re-resolution, per position and notation ---- *)
-ResClass(d, i) ==
-  \* YQuery.KeyStep selects Set members by text only when they are strings (the code was repaired to
-  \* accept any member by its text): the model cannot decide, the replay does
-  IF d[d[i].par].k = "set" /\ d[i].t # "str" THEN "set-nonstr-member" ELSE ""
 ResOne(d, i) ==
   LET st == StepsTo(d, i)  a == ReResolve(d, st, ".")  b == ReResolve(d, st, "/")  pl == Places(d, i) IN
-  [i |-> i, dot |-> a.txt, sl |-> b.txt, pl |-> pl, cls |-> ResClass(d, i),
+  [i |-> i, dot |-> a.txt, sl |-> b.txt, pl |-> pl,
    ok |-> a.err = "" /\ a.ids = pl /\ b.err = "" /\ b.ids = pl]
 
 (* ---- T2..T4: one (table, options) evaluation ---- *)
@@ -167,7 +163,7 @@ MineShard == (Len(doc) + Len(doc[Len(doc)].v) + Len(doc[Len(doc)].keys) + HashAc
 Check ==
   (fresh /\ MineShard) =>
     \A pk \in {[res |-> [j \in 1..(Len(doc) - 1) |-> ResOne(doc, j + 1)], cs |-> SetToSeq(Cases(doc))]} :   \* (bound, not LET: see PerOptOut)
-       /\ \A j \in 1..Len(pk.res) : pk.res[j].ok \/ pk.res[j].cls # ""      \* T1
+       /\ \A j \in 1..Len(pk.res) : pk.res[j].ok                             \* T1
        /\ \A j \in 1..Len(pk.cs) : pk.cs[j].ok                             \* T2-T4 (+ the classing cross-check)
        /\ WriteChunks(doc, pk.res, pk.cs, 1)
 =============================================================================
